@@ -9,7 +9,7 @@ META = {
                   'qbe.c:emitdata', 'qbe.c:funcinit', 'qbe.c:checkgotos', 'stmt.c:label'],
     'bounds': {'builder': 'all sequences of <= 3 (quick) / 4 (thorough) builder calls over 6 operations, enumerated', 'classes': 'per operator/type pair (see C01)', 'data': 'see C07'},
     'stubs': ['as in C01/C07/C15 families'],
-    'outside': ['whole-module parsing by QBE', 'dominance of definitions over uses across arbitrary control flow', 'aggregate type definitions before use (emittype order)', 'interleaving of diagnostics and output'],
+    'outside': ['whole-module parsing by QBE', 'dominance of definitions over uses beyond the executed paths of the 16 corpus functions', 'aggregate type definitions before use (emittype order)', 'interleaving of diagnostics and output'],
 }
 
 
@@ -29,6 +29,12 @@ def instances(build, tier, seed):
     L += [i for i in c15.ladder_instances(tier, fam='classes.ladder') if i.bound['case_labels'] <= 3]
     L += c07.funcinit_instances(tier, fam='classes.autoinit')
     L += [i for i in c07.data_instances(tier, fam='datasize') if len(i.bound['initializers']) == 1]
+    # whole functions through the real parser and lowering; the IL interpreter checks classes, definitions before use on the executed
+    # path, phi sources being the actual predecessor, call argument classes against the callee's prototype (harness/h_tv.c)
+    import tvcorpus
+    want = ('nestedcond', 'nestedcond-logic', 'nestedcond-both', 'cond-in-logic', 'cond-lvalue-ptr', 'logic', 'ternary', 'shortcircuit-side', 'forbreak', 'goto',
+            'call-basic', 'call-variadic', 'call-conv', 'call-fptr', 'call-cond', 'bitfield')
+    L += [i for i in tvcorpus.corpus_instances(tier, fam='ilfunc') if i.name.split('.', 1)[1] in want]
     L.append(parselib.parse_inst('jump.goto-undef', 'void f(void) { goto nowhere; }', True, 'jump', errmsg='use of undefined label', unwind=70))
     L.append(parselib.parse_inst('jump.label-dup', 'void f(void) { L: ; L: ; }', True, 'jump', errmsg='duplicate label', unwind=70))
     return L
